@@ -9,7 +9,7 @@
 use crate::driver::{self, Batch, Report, RunOut, Tier, Violation};
 use crate::gen::{self, ParamSpec, BFV, BGV, CKKS};
 use crate::io_fault::FaultyReader;
-use crate::net::{self, FaultPlan, NetOutcome, Order, SessionIo};
+use crate::net::{self, EvId, FaultPlan, NetOutcome, Order, SessionIo};
 use crate::prng::{self, Prng};
 use crate::util::{self, catch_res, LogHash};
 use heathcliff::multiparty::participant::*;
@@ -68,11 +68,11 @@ pub struct Scn {
     pub fault: Option<(usize, FaultPlan)>,
     /// delivery order: seeded, or (for replay) forced per session
     pub order_seed: u64,
-    pub forced: Option<Vec<Vec<(usize, usize, usize)>>>,
+    pub forced: Option<Vec<Vec<EvId>>>,
 }
 
 impl Scn {
-    pub fn to_json(&self, orders: Option<&[Vec<(usize, usize, usize)>]>) -> Value {
+    pub fn to_json(&self, orders: Option<&[Vec<EvId>]>) -> Value {
         json!({
             "spec": self.spec.to_json(),
             "parties": self.n,
@@ -83,7 +83,8 @@ impl Scn {
             "sessions": self.sessions.iter().map(|k| k.name()).collect::<Vec<_>>(),
             "fault": self.fault.as_ref().map(|(i, p)| json!({"session": i, "plan": p.to_json()})),
             "order_seed": self.order_seed,
-            "delivery_orders": orders.map(|o| o.iter().map(|s| s.iter().map(|(r, f, t)| json!([r, f, t])).collect::<Vec<_>>()).collect::<Vec<_>>()),
+            "event_orders": orders.map(|o| o.iter().map(|s| s.iter().map(|(k, r, f, t)| json!([k, r, f, t])).collect::<Vec<_>>()).collect::<Vec<_>>()),
+            "event_order_legend": "[kind, round, from, to]; kind 0 = party starts, 1 = party writes its message for one recipient, 2 = message handed to the recipient",
         })
     }
     pub fn from_json(v: &Value) -> Option<Scn> {
@@ -92,11 +93,11 @@ impl Scn {
         } else {
             Some((v["fault"]["session"].as_u64()? as usize, FaultPlan::from_json(&v["fault"]["plan"])?))
         };
-        let forced = v["delivery_orders"].as_array().map(|o| {
+        let forced = v["event_orders"].as_array().map(|o| {
             o.iter()
                 .map(|s| {
                     s.as_array()
-                        .map(|l| l.iter().filter_map(|x| Some((x[0].as_u64()? as usize, x[1].as_u64()? as usize, x[2].as_u64()? as usize))).collect::<Vec<_>>())
+                        .map(|l| l.iter().filter_map(|x| Some((x[0].as_u64()? as u8, x[1].as_u64()? as usize, x[2].as_u64()? as usize, x[3].as_u64()? as usize))).collect::<Vec<_>>())
                         .unwrap_or_default()
                 })
                 .collect::<Vec<_>>()
@@ -251,7 +252,7 @@ pub struct Found {
 #[derive(Default)]
 pub struct ScnResult {
     pub found: Vec<Found>,
-    pub orders: Vec<Vec<(usize, usize, usize)>>,
+    pub orders: Vec<Vec<EvId>>,
     pub counters: Vec<(String, u64)>,
     pub distinct: Vec<u64>,
     pub log: Vec<u64>,
@@ -386,14 +387,22 @@ fn judge_net(res: &mut ScnResult, kind: Kind, scheme: &str, out: &NetOutcome, fa
     res.count("fired.truncated", out.truncated_fired);
     res.count("fired.sender_crash", out.crash_fired);
     res.count("fired.fragmented_reads", out.fragmented_reads);
+    res.count("fired.duplicate_delivery", out.dup_fired);
     res.count("probe.message_buffered_before_local_round", out.buffered_early);
     res.count("probe.delivery_out_of_index_order", out.out_of_index_order as u64);
+    res.count("probe.receive_between_own_sends", out.receive_between_own_sends);
     res.count("recv_errors", out.recv_errors);
 }
 
 /// Apply the completeness oracle to one party's finish() and return the value if it finished.
 fn judge_finish<T>(res: &mut ScnResult, kind: Kind, scheme: &str, party: usize, out: &NetOutcome, r: Result<T, String>) -> Option<T> {
     if out.crashed[party] {
+        return None;
+    }
+    if out.dup_seen[party] && out.complete[party] {
+        // a duplicate was handed to this party: the property promises nothing about idempotence, so
+        // neither refusing nor finishing is judged (only "incomplete => refuses" below still applies)
+        res.count("probe.complete_party_saw_duplicate", 1);
         return None;
     }
     match (out.complete[party], r) {
@@ -488,7 +497,7 @@ fn run_inner(scn: &Scn, res: &mut ScnResult) -> Result<(), String> {
             msg = Some(m);
         }
 
-        let mut session_orders: Vec<(usize, usize, usize)> = Vec::new();
+        let mut session_orders: Vec<EvId> = Vec::new();
         match kind {
             Kind::PublicKey => {
                 let protos: Vec<_> = parties.iter_mut().map(|p| Some(p.generate_public_key())).collect();
@@ -531,7 +540,7 @@ fn run_inner(scn: &Scn, res: &mut ScnResult) -> Result<(), String> {
                     }
                     pk = Some(k.clone());
                 }
-                session_orders = out.delivered.clone();
+                session_orders = out.history.clone();
             }
             Kind::RelinKeys => {
                 let protos: Vec<_> = parties.iter_mut().map(|p| Some(p.generate_relin_keys())).collect();
@@ -587,7 +596,7 @@ fn run_inner(scn: &Scn, res: &mut ScnResult) -> Result<(), String> {
                     rlk = Some(k.clone());
                 }
                 let _ = &rlk;
-                session_orders = out.delivered.clone();
+                session_orders = out.history.clone();
             }
             Kind::Decrypt => {
                 let c = cipher.clone().unwrap();
@@ -616,7 +625,7 @@ fn run_inner(scn: &Scn, res: &mut ScnResult) -> Result<(), String> {
                         }
                     }
                 }
-                session_orders = out.delivered.clone();
+                session_orders = out.history.clone();
             }
             Kind::KeySwitch => {
                 let c = cipher.clone().unwrap();
@@ -648,7 +657,7 @@ fn run_inner(scn: &Scn, res: &mut ScnResult) -> Result<(), String> {
                         }
                     }
                 }
-                session_orders = out.delivered.clone();
+                session_orders = out.history.clone();
             }
             Kind::PublicKeySwitch => {
                 let c = cipher.clone().unwrap();
@@ -680,7 +689,7 @@ fn run_inner(scn: &Scn, res: &mut ScnResult) -> Result<(), String> {
                         }
                     }
                 }
-                session_orders = out.delivered.clone();
+                session_orders = out.history.clone();
             }
             Kind::CipherToShares | Kind::RoundTrip => {
                 if scn.spec.scheme == CKKS {
@@ -712,7 +721,7 @@ fn run_inner(scn: &Scn, res: &mut ScnResult) -> Result<(), String> {
                     // parties other than 0 receive nothing: they are always "complete"
                     got.push(judge_finish(res, kind, scheme, i, &out, r));
                 }
-                session_orders = out.delivered.clone();
+                session_orders = out.history.clone();
                 if got.iter().all(|g| g.is_some()) {
                     let Msg::Slots(m) = msg.as_ref().unwrap() else { unreachable!() };
                     let mut sum = vec![0u64; scn.spec.n];
@@ -758,7 +767,7 @@ fn run_inner(scn: &Scn, res: &mut ScnResult) -> Result<(), String> {
         res.log.push(oh);
         let canonical = {
             let mut c = session_orders.clone();
-            c.sort();
+            c.sort_by_key(|(k, r, f, t)| (*r, *k, *f, *t));
             c == session_orders
         };
         if !canonical || faulty {
@@ -778,7 +787,7 @@ fn run_inner(scn: &Scn, res: &mut ScnResult) -> Result<(), String> {
 fn shares_to_cipher(
     scn: &Scn, res: &mut ScnResult, parties: &mut [Participant], ctxs: &[Arc<HeContext>], env: &Env, dec_s: &Decryptor,
     sh: Vec<Vec<u64>>, expect: Vec<u64>, plan: &FaultPlan, faulty: bool, order: &Order, frag_seed: u64,
-    session_orders: &mut Vec<(usize, usize, usize)>, label: &str,
+    session_orders: &mut Vec<EvId>, label: &str,
 ) -> Result<(), String> {
     let n = scn.n;
     let scheme = gen::scheme_name(scn.spec.scheme);
@@ -814,7 +823,7 @@ fn shares_to_cipher(
             }
         }
     }
-    session_orders.extend(out.delivered.iter().cloned());
+    session_orders.extend(out.history.iter().cloned());
     Ok(())
 }
 
@@ -896,11 +905,24 @@ fn gen_fault(rng: &mut Prng, scn: &Scn) -> (usize, FaultPlan) {
     let msgs = messages_of(kind, scn.n);
     let mut plan = FaultPlan::default();
     plan.fragment = rng.coin();
-    match rng.below(5) {
+    match rng.below(8) {
         0 | 1 => {
             for _ in 0..rng.range(1, 2) {
                 plan.lost.insert(*rng.pick(&msgs));
             }
+        }
+        5 | 6 => {
+            // at-least-once transport: a retransmission of one message while another one is lost
+            plan.dup.insert(*rng.pick(&msgs));
+            if rng.chance(3, 4) {
+                plan.lost.insert(*rng.pick(&msgs));
+            }
+        }
+        7 => {
+            for _ in 0..rng.range(1, 3) {
+                plan.dup.insert(*rng.pick(&msgs));
+            }
+            plan.lost.insert(*rng.pick(&msgs));
         }
         2 => {
             plan.truncated.insert(*rng.pick(&msgs), rng.usize_below(400));
@@ -917,7 +939,7 @@ fn gen_fault(rng: &mut Prng, scn: &Scn) -> (usize, FaultPlan) {
     (idx, plan)
 }
 
-fn to_violation(scn: &Scn, f: &Found, orders: &[Vec<(usize, usize, usize)>]) -> Violation {
+fn to_violation(scn: &Scn, f: &Found, orders: &[Vec<EvId>]) -> Violation {
     Violation {
         key: f.key.clone(),
         class: f.class.clone(),
@@ -1031,7 +1053,7 @@ pub fn run(tier: Tier, seed: u64) -> i32 {
         rule: "seeded scenarios: n in 2..6 parties (each optionally with an independently built context), BFV/BGV/CKKS, N in {8..64}, 2-4 primes, session lists (collective public key, optional relinearization keys, then decrypt / key switch / public-key switch / cipher-to-shares / shares-to-cipher / round trip) over a discrete-event network with seeded latencies; half the runs fault-free, a quarter with random loss / truncation / sender crash / fragmentation in one session, a quarter enumerating every single-message loss of one session for n <= 3. evaluations = protocol sessions executed. distinct_nontrivial = distinct (session kind, n, scheme, delivery-order hash, fault set) where the delivery order differs from canonical index order or a fault was injected".into(),
         assumptions: vec![
             "the application delivers a message to the protocol object only once the local state machine has reached its round (buffering is the application's job)".into(),
-            "duplicate deliveries are not asserted on (the property does not promise idempotence)".into(),
+            "duplicate deliveries are injected, but a party that received everything plus a duplicate is not judged (the property does not promise idempotence); a party that is still missing a message must refuse, duplicates or not".into(),
             "a receive that returns Err or panics counts as 'message not received'".into(),
             "CKKS results are compared within an absolute tolerance of 0.05 (0.5 after squaring) at scale 2^30".into(),
         ],
@@ -1043,7 +1065,7 @@ pub fn run(tier: Tier, seed: u64) -> i32 {
     driver::finish(rep, &batch, &minimise, &crate::replay_fresh)
 }
 
-fn reproduces(scn: &Scn, key: &str) -> Option<(Found, Vec<Vec<(usize, usize, usize)>>)> {
+fn reproduces(scn: &Scn, key: &str) -> Option<(Found, Vec<Vec<EvId>>)> {
     let r = run_scenario(scn);
     let orders = r.orders;
     r.found.into_iter().find(|f| f.key == key).map(|f| (f, orders))
@@ -1108,6 +1130,11 @@ fn minimise(v: &Violation) -> Violation {
                 q.truncated.remove(k);
                 cands.push(q);
             }
+            for d in &p.dup {
+                let mut q = p.clone();
+                q.dup.remove(d);
+                cands.push(q);
+            }
             if p.crash.is_some() {
                 let mut q = p.clone();
                 q.crash = None;
@@ -1146,7 +1173,7 @@ fn minimise(v: &Violation) -> Violation {
     }
     // canonical delivery order if the violation does not need a particular one
     let mut c = scn.clone();
-    c.forced = Some(best_o.iter().map(|s| { let mut s = s.clone(); s.sort(); s }).collect());
+    c.forced = Some(best_o.iter().map(|s| { let mut s = s.clone(); s.sort_by_key(|(k, r, f, t)| (*r, *k, *f, *t)); s }).collect());
     if let Some((f, o)) = reproduces(&c, &v.key) {
         best_f = f;
         best_o = o;
